@@ -36,6 +36,7 @@ type SnapPtr struct {
 	Content Val
 	Cell    *Cell
 	ElemT   types.Type
+	Name    string // name of the pointer that was snapshotted (identity of pointers read from containers)
 }
 
 type Oblig struct {
@@ -106,6 +107,10 @@ type Engine struct {
 	curState      *State
 	ctxParent     *ssa.Function
 	ctxParentArgs []Val
+	utcTimes      map[string]bool
+	loopIdxSyms   []string // the (havocked) hidden index of every summarised range loop
+	snapOrigin    map[*Cell]string
+	mapUpd        map[*ssa.Function]map[string]bool
 	ipText       map[*Arr]string   // net.IP values: the text they were parsed from
 	netTerm       map[string]string // *net.IPNet pointers (by name): their abstract network term
 	boxedTerm     map[string]string // pointers read back from containers: the opaque term they were read as
@@ -1073,6 +1078,10 @@ func (e *Engine) binop(st *State, op token.Token, x, y Val, t types.Type, xT, yT
 			if a.Cell != nil && a.Cell == b.Cell {
 				return cmp(a.Nil, b.Nil)
 			}
+			// the same symbolic input optional (its nil flag is a symbol of its own): same pointer
+			if a.Cell == nil && b.Cell == nil && a.Nil == b.Nil && a.Nil != "true" && a.Nil != "false" && !strings.HasPrefix(a.Nil, "(") {
+				return nilCmp(op, "true")
+			}
 		}
 	case PtrV:
 		if b, ok := y.(PtrV); ok && isCmp {
@@ -1083,6 +1092,25 @@ func (e *Engine) binop(st *State, op token.Token, x, y Val, t types.Type, xT, yT
 				return nilCmp(op, b.Nil)
 			}
 			if a.Cell != nil && a.Cell == b.Cell {
+				return cmp(a.Nil, b.Nil)
+			}
+			// the nil flag of a symbolic input pointer is a symbol of its own: same symbol, same pointer
+			if a.Nil == b.Nil && a.Nil != "true" && a.Nil != "false" && !strings.HasPrefix(a.Nil, "(") && a.Name == b.Name {
+				return nilCmp(op, "true")
+			}
+			// two snapshots of the same pointer (taken at two call sites)
+			if oa, ok := e.snapOrigin[a.Cell]; ok && a.Cell != nil {
+				if ob, ok := e.snapOrigin[b.Cell]; ok && b.Cell != nil && oa == ob {
+					return cmp(a.Nil, b.Nil)
+				}
+			}
+			// pointers read from containers are identified by the opaque term they were read as
+			ta, okA := e.boxedTerm[a.Name]
+			tb, okB := e.boxedTerm[b.Name]
+			if okA && okB {
+				return cmp(ta, tb)
+			}
+			if a.Name == b.Name && a.Cell == b.Cell {
 				return cmp(a.Nil, b.Nil)
 			}
 		}
@@ -1144,6 +1172,25 @@ func (e *Engine) binop(st *State, op token.Token, x, y Val, t types.Type, xT, yT
 			return nilCmp(op, pv.Nil)
 		}
 	}
+	// address of a variable or of a field (&x, &s.f) compared with nil: never nil
+	if isCmp {
+		_, xa := x.(AddrV)
+		_, ya := y.(AddrV)
+		isNil := func(v Val) bool {
+			switch o := v.(type) {
+			case OptV:
+				return o.Nil == "true"
+			case PtrV:
+				return o.Nil == "true"
+			case OpaqueV:
+				return o.T == "nilU"
+			}
+			return false
+		}
+		if xa && isNil(y) || ya && isNil(x) {
+			return nilCmp(op, "false")
+		}
+	}
 	// pointer into a slice (&s[i]) compared with nil
 	if isCmp {
 		ea, isEA := x.(ElemAddrV)
@@ -1169,6 +1216,7 @@ func (e *Engine) binop(st *State, op token.Token, x, y Val, t types.Type, xT, yT
 			}
 		}
 	}
+	debugf("binop fallback: %v on %T and %T (%v, %v) %+v %+v", op, x, y, xT, yT, x, y)
 	return e.symbolic(st, t, "binop")
 }
 
@@ -1515,9 +1563,10 @@ func (e *Engine) enterLoop(f *frame, st *State, li *loopInfo, reach string, top 
 				e.havocRoot(f, st, li, x.Map)
 			case ssa.CallInstruction:
 				cc := x.Common()
+				keeps := cc.IsInvoke() && e.ctx.ifaceKeepsArgs(types.TypeString(cc.Value.Type(), nil), cc.Method.Name())
 				for _, a := range cc.Args {
 					if _, isPtr := a.Type().Underlying().(*types.Pointer); isPtr {
-						if !e.calleeKeepsMemory(cc) {
+						if !keeps && !e.calleeKeepsMemory(cc) {
 							e.havocRoot(f, st, li, a)
 						}
 					}
@@ -1535,6 +1584,7 @@ func (e *Engine) enterLoop(f *frame, st *State, li *loopInfo, reach string, top 
 	if ri := e.rangeIndexCell(f, li); ri != nil && !e.bv() {
 		if iv, ok := st.cells[ri].(IntV); ok {
 			e.fact(imp(reach, "(>= "+iv.T+" (- 1))"))
+			e.loopIdxSyms = append(e.loopIdxSyms, iv.T)
 		}
 	}
 	if len(invs) > 0 {
